@@ -40,6 +40,9 @@ TypesOK(e) ==
                     /\ Digit(w, 2) \in BoolTy /\ FlagOK(e[6])
     [] e[3] \in {KC, KM} -> Digit(w, 0) \in IntTy /\ Digit(w, 1) \in StTy /\ Digit(w, 2) \in StTy
     [] OTHER -> TRUE
+(* C18: repr() of an emitted action evaluates back to an equal action (digit 5 of the type word, *)
+(* computed by the recorder in a namespace with sys, numpy/np and the package's public names)     *)
+ReprOK(e) == Digit(e[16], 5) = 1
 
 (* ---- class profiles: the budgets and pass counts of the statements (C03, C09) ---- *)
 Prof(online, passes, allmem, limR, limD, period, perstep) ==
@@ -71,7 +74,8 @@ TraceInit ==
 (* the clauses of one event, and its total effect *)
 CallClauses(e) ==
   CASE EvC(e) = CNext -> NextClauses(EvO(e), EvAct(e))
-                         \cup (IF EvO(e) = ONext THEN C("C18.shape", TypesOK(e)) ELSE {})
+                         \cup (IF EvO(e) = ONext THEN C("C18.shape", TypesOK(e)) \cup C("C18.repr_roundtrip", ReprOK(e))
+                                                 ELSE {})
     [] EvC(e) = CFin  -> FinClauses(e[4], EvO(e))
     [] OTHER -> {}
 
